@@ -1,9 +1,11 @@
 import ClipperVerif.Props.C06
 open Clipper.Props.C06
 #print axioms polygon_delta_sign
+#print axioms groupSetup_keeps_delta
 #print axioms mkGroup_isReversed_iff
 #print axioms polygon_union_orientation
 #print axioms small_delta_identity
+#print axioms small_delta_identity_polygons
 #print axioms concave_branch_iff
 #print axioms join_branch
 #print axioms miter_iff_within_limit
